@@ -13,7 +13,10 @@ META = {
                   "from the plain file name with the MpqCrypto reference hash, hash-table insertion and lookup by linear probing under four "
                   "spellings of real byte-string names, absent names sharing a home slot, the V3/V4 lookup path as actions (HetProbe, "
                   "BetVerify, ClassicFallback, Deliver) with 8-bit HET hashes and lookup3 / one-at-a-time BET hashes, HET/BET table "
-                  "compression, the reader's branch / shortcut / per-sector test, the codec limits and sector decode errors. TLC checks "
+                  "compression, the reader's branch / shortcut / per-sector test, the codec limits and sector decode errors; "
+                  "MpqBuildOpts.tla models the option setters (generate_crcs / attributes_option / listfile_option switch each other "
+                  "on: the option state is a function of the call ORDER), the special files and listfile lines build() derives from "
+                  "it and Archive::list(). TLC checks "
                   "exhaustively (sector size 4, 3 files in a 4-slot hash table and 8-slot HET table, 8 lengths x 3 compressibility classes x "
                   "6 methods x 3 encryption modes x crc; the as-coded configuration in quick; in thorough also the pre-fix configurations and "
                   "sector size 4096 for the limit region) that the reader re-derives the writer's layout, keys agree, every spelling finds "
@@ -28,7 +31,11 @@ META = {
                   "through BET file info. Key derivation is checked on the model and by the round trip itself, not per trace event. "
                   "ADPCM (lossy) methods: once a lossy stage was applied only result class and length are demanded. quick = 144 "
                   "configurations (slice through version x shift in {0,3,8} x one more dimension, + 24 seed-rotated draws of the 31 104) "
-                  "+ 160 table-length, 84 field-width, 16 sector-count, 6 huge-member and 32 colliding-name-set cases; thorough = the full product of version x shift x method x enc x crc x attrs (7 776) with the "
+                  "+ 160 table-length, 84 field-width, 16 sector-count, 6 huge-member and 32 colliding-name-set cases "
+                  "+ 16 configurations of the option states only the call order attributes_option ; generate_crcs(off) reaches "
+                  "+ 353 option-call histories (every sequence of <= 2 setter calls x version, every sequence of 3 "
+                  "generate_crcs / attributes_option calls; MpqBuildOpts: the option state is computed by TLC from the Opt events); "
+                  "every encfix archive carries a sectored first member whose FIX_KEY key is exactly 0; thorough = the full product of version x shift x method x enc x crc x attrs (7 776) with the "
                   "(listfile, tablecomp) pair rotating by coordinate sum + seed (four consecutive seeds enumerate the whole "
                   "31 104-configuration product) + quick slice + 100 draws + the same 298 table / width / sector-count / huge / name-set cases; the non-zero-offset re-open is done "
                   "for every archive in quick and every fourth in thorough.",
@@ -55,8 +62,10 @@ def mc_nocov(ctx, module, cfg, workers=8, timeout=600, expect_violation=None):
     if rc != 0 or "No error has been found" not in text or not m:
         raise core.ToolError(f"stage A: model check {module}/{cfg} failed rc={rc}:\n" + core._tail(text))
     seen = set(re.findall(r'<<"ACTION", "(\w+)">>', text))
-    need = ACTIONS + (HETBET_ACTIONS if cfg in ("MC_MpqBuild_fixed", "MC_MpqBuild_betfix") else []) \
+    need = ACTIONS + (HETBET_ACTIONS if cfg in ("MC_MpqBuild_fixed", "MC_MpqBuild_betfix", "MC_MpqBuild_zkey") else []) \
         + (["ClassicFallback"] if cfg != "MC_MpqBuild_betfix" or True else [])
+    if cfg == "MC_MpqBuild_zkey":       # file sets of the zero-key configuration hold no method the codec layer refuses
+        need = [a for a in need if a != "BuildFailCodec"]
     missing = [a for a in need if a not in seen]
     if missing:
         raise core.ToolError(f"stage A: actions never taken in {cfg}: {missing} (vacuous model)")
@@ -126,13 +135,22 @@ def stage_a(ctx):
     main = "MC_MpqBuild" if not fixed else ("MC_MpqBuild_betfix" if betfix else "MC_MpqBuild_fixed")
     # negative controls: TLC must find the pre-9cf2783 layout counterexample, and the BET field-width counterexample when
     # the stored-size column takes its width from the file sizes
-    jobs = [(main, 6, None), ("MC_MpqBuild_neg", 1, "NegNoFlagDeviation"), ("MC_MpqBuild_negbet", 1, "BetRoundTrip")]
+    # key class "final key 0" (FIX_KEY key of a sectored first member is exactly 0): all invariants hold when the reader
+    # decrypts on the ENCRYPTED flag (as coded); TLC must refute ReadBack when it decrypts on key != 0 instead
+    zk = [("MC_MpqBuild_zkey", 1, None), ("MC_MpqBuild_negzkey", 1, "ReadBack")]
+    jobs = [(main, 4, None), ("MC_MpqBuild_neg", 1, "NegNoFlagDeviation"), ("MC_MpqBuild_negbet", 1, "BetRoundTrip")] + zk
     if ctx.thorough:
         others = [c for c in ("MC_MpqBuild", "MC_MpqBuild_fixed", "MC_MpqBuild_betfix") if c != main]
         jobs = [(main, 2, None), ("MC_MpqBuild_limits", 2, None), (others[0], 2, None), (others[1], 2, None),
-                ("MC_MpqBuild_neg", 1, "NegNoFlagDeviation"), ("MC_MpqBuild_negbet", 1, "BetRoundTrip")]
-    with cf.ThreadPoolExecutor(max_workers=6) as ex:
+                ("MC_MpqBuild_neg", 1, "NegNoFlagDeviation"), ("MC_MpqBuild_negbet", 1, "BetRoundTrip")] + zk
+    with cf.ThreadPoolExecutor(max_workers=8) as ex:
         futs = [ex.submit(mc_nocov, ctx, "MC_MpqBuild", cfg, w, 1200, neg) for cfg, w, neg in jobs]
+        # the option part (MpqBuildOpts): every history of up to 4 setter calls, then build and list; and the must-refute
+        # variant in which the "(attributes)" line of the generated listfile follows generate_crcs instead of
+        # attributes_option (TLC must find the call order that makes the listing omit the attributes file)
+        ctx.mc("MC_MpqBuildOpts", workers=2, timeout=600, heap="2g",
+               expect_actions=["MCCallCrcs", "MCCallAttrs", "MCCallListfile", "OBuild", "OList"])
+        mc_nocov(ctx, "MC_MpqBuildOpts", "MC_MpqBuildOpts_neg", 1, 600, "MCListingExact")
         for f in futs:
             f.result()
 
@@ -154,11 +172,19 @@ def run(ctx, cases_override=None):
     # shard by sector size: SectorSize is a constant of MpqBuild
     by_shift, cur = {}, None
     samples, kinds, distinct = [], {}, set()
+    optstates, cur_case, zkeys = {}, None, 0     # per archive: [some member carries SECTOR_CRC, specials the archive holds]
     with open(trace) as f:
         for line in f:
             r = json.loads(line)
             if r["ev"] == "Reset":
                 cur = r["shift"]
+                cur_case = r["case"]
+                optstates[cur_case] = [False, None]
+            elif r["ev"] == "File":
+                optstates[cur_case][0] = optstates[cur_case][0] or "SECTOR_CRC" in r.get("flags", [])
+                zkeys += r.get("lencls") == "zkey"
+            elif r["ev"] == "List":
+                optstates[cur_case][1] = ",".join(sorted(r.get("specials", [])))
             by_shift.setdefault(cur, []).append(line)
             kinds[r["ev"]] = kinds.get(r["ev"], 0) + 1
             if r["ev"] == "File":
@@ -209,6 +235,10 @@ def run(ctx, cases_override=None):
         "configurations_in_quantifier": 31104,
         "cases_generated_by_tlc": ncases,
         "events_by_kind": kinds,
+        "option_states_observed": (lambda d: {k: d[k] for k in sorted(d)})(
+            (lambda c: c)(__import__("collections").Counter(
+                f"sector_crc={'on' if v[0] else 'off'} specials={v[1]}" for v in optstates.values() if v[1] is not None))),
+        "zero_key_members": zkeys,
         "exhaustive": False,
     }
     assumptions = ["names are ASCII without ';' and surrounding blanks (listfile parser trims and cuts at ';')",
@@ -223,5 +253,6 @@ def replay(ctx, payload):
     rs = payload.get("reset") or {}
     sel = ctx.path("replay-cases.ndjson")
     with open(sel, "w") as f:
-        f.write(json.dumps({k: rs[k] for k in ("ver", "shift", "method", "enc", "crc", "attrs", "listfile", "tablecomp")}) + "\n")
+        f.write(json.dumps({k: rs[k] for k in ("ver", "shift", "method", "enc", "crc", "attrs", "listfile", "tablecomp", "opts")
+                            if k in rs}) + "\n")
     return run(ctx, cases_override=sel)
